@@ -11,6 +11,7 @@ def run(ctx):
     progress.rule_ideal_early_exit(ctx)  # the ideal solver's enumeration stops only when the intersection is the grounded extension
     cli.rule_answer_after_solver(ctx)  # the command line prints the status the solver returned, after it returned
     accept.rule_delegation_pairs(ctx)
+    accept.rule_plain_status_follows_model(ctx, 'credulous')
     cli.rule_dispatch(ctx, 'credulous')
     accept.rule_membership_answers(ctx, 'credulous')
     accept.rule_list_quantifiers(ctx, 'credulous')
@@ -23,6 +24,7 @@ def run(ctx):
     progress.rule_blocking(ctx)
     progress.rule_selector_freshness(ctx)
     progress.rule_local_selector_retired(ctx)
+    progress.rule_selector_is_next_variable(ctx)
     progress.rule_state_machine(ctx)
     accept.rule_stage_layering(ctx, 'credulous')
     grounded.rule_grounded_propagation(ctx)
